@@ -5,4 +5,121 @@ import OLP.Ledger.Model
 
 namespace OLP.Ledger
 
+/-! ## `bal` / `setBal` -/
+
+theorem bal_nil (a : Acc) : bal [] a = 0 := rfl
+
+theorem bal_cons (k : Acc) (v : Int) (t : L) (a : Acc) :
+    bal ((k, v) :: t) a = if k = a then v else bal t a := by
+  unfold bal
+  by_cases h : k = a <;> simp [alookup, h]
+
+theorem bal_setBal_self (l : L) (a : Acc) (v : Int) : bal (setBal l a v) a = v := by
+  simp [bal, setBal]
+
+theorem bal_setBal_ne (l : L) (a b : Acc) (v : Int) (h : b ≠ a) :
+    bal (setBal l a v) b = bal l b := by
+  simp [bal, setBal, alookup_upsert_ne l a b v h]
+
+theorem bal_setBal (l : L) (a b : Acc) (v : Int) :
+    bal (setBal l a v) b = if b = a then v else bal l b := by
+  by_cases h : b = a
+  · subst h; simp [bal_setBal_self]
+  · simp [h, bal_setBal_ne l a b v h]
+
+/-! ## `total` -/
+
+/-- holds for every list, duplicates included: `upsert` replaces exactly the entry `bal` reads -/
+theorem total_setBal (l : L) (a : Acc) (v : Int) :
+    total (setBal l a v) = total l - bal l a + v := by
+  induction l with
+  | nil => simp [setBal, upsert, total, bal]
+  | cons hd t ih =>
+    obtain ⟨k, w⟩ := hd
+    by_cases hk : k = a
+    · subst hk
+      simp only [setBal, upsert, if_true, total, bal_cons]
+      omega
+    · have ih' : total (upsert t a v) = total t - bal t a + v := ih
+      simp only [setBal, upsert, hk, if_false, total, bal_cons, ih']
+      omega
+
+/-! ## `NonNeg` -/
+
+theorem mem_upsert (l : L) (a : Acc) (v : Int) (p : Acc × Int) (h : p ∈ upsert l a v) :
+    p ∈ l ∨ p = (a, v) := by
+  induction l with
+  | nil =>
+    simp [upsert] at h
+    exact Or.inr h
+  | cons hd t ih =>
+    obtain ⟨k, w⟩ := hd
+    by_cases hk : k = a
+    · simp only [upsert, hk, if_true, List.mem_cons] at h
+      rcases h with h | h
+      · exact Or.inr h
+      · exact Or.inl (List.mem_cons_of_mem _ h)
+    · simp only [upsert, hk, if_false, List.mem_cons] at h
+      rcases h with h | h
+      · exact Or.inl (h ▸ List.mem_cons_self)
+      · rcases ih h with h' | h'
+        · exact Or.inl (List.mem_cons_of_mem _ h')
+        · exact Or.inr h'
+
+theorem nonNeg_setBal (l : L) (a : Acc) (v : Int) (hn : NonNeg l) (hv : 0 ≤ v) :
+    NonNeg (setBal l a v) := by
+  intro p hp
+  rcases mem_upsert l a v p hp with h | h
+  · exact hn p h
+  · subst h; exact hv
+
+theorem bal_nonneg (l : L) (a : Acc) (hn : NonNeg l) : 0 ≤ bal l a := by
+  induction l with
+  | nil => simp [bal_nil]
+  | cons hd t ih =>
+    obtain ⟨k, w⟩ := hd
+    rw [bal_cons]
+    by_cases hk : k = a
+    · simp only [hk, if_true]
+      exact hn (k, w) List.mem_cons_self
+    · simp only [hk, if_false]
+      exact ih (fun p hp => hn p (List.mem_cons_of_mem _ hp))
+
+/-! ## the primitives, inverted -/
+
+theorem minusFrom_ok (l l' : L) (a : Acc) (c : Int) (h : minusFrom l a c = .ok l') :
+    0 ≤ bal l a - c ∧ l' = setBal l a (bal l a - c) := by
+  unfold minusFrom at h
+  by_cases hlt : bal l a - c < 0
+  · simp [hlt] at h
+  · simp only [hlt, if_false, Except.ok.injEq] at h
+    exact ⟨by omega, h.symm⟩
+
+theorem transfer_ok (l l' : L) (s d : Acc) (c : Int) (h : transfer l s d c = .ok l') :
+    ∃ l₁, minusFrom l s c = .ok l₁ ∧ l' = addTo l₁ d c := by
+  unfold transfer at h
+  cases hm : minusFrom l s c with
+  | error e => simp [hm] at h
+  | ok l₁ =>
+    simp only [hm, Except.ok.injEq] at h
+    exact ⟨l₁, rfl, h.symm⟩
+
+theorem send_ok (l l' : L) (s d : Acc) (amt : Int) (h : send l s d amt = .ok l') :
+    0 ≤ amt ∧ transfer l s d amt = .ok l' := by
+  unfold send isValid at h
+  by_cases ha : 0 ≤ amt
+  · simp [ha] at h
+    exact ⟨ha, h⟩
+  · simp [ha] at h
+
+theorem txSend_ok (l l' : L) (s d p : Acc) (amt price used : Int)
+    (h : txSend l s d p amt price used = .ok l') :
+    ∃ l₁, send l s d amt = .ok l₁ ∧ feeStep l₁ s p price used = .ok l' := by
+  unfold txSend at h
+  cases hm : send l s d amt with
+  | error e => simp [hm] at h
+  | ok l₁ =>
+    simp only [hm] at h
+    exact ⟨l₁, rfl, h⟩
+
 end OLP.Ledger
